@@ -292,6 +292,10 @@ def check_case(case):
     ctx = (f"sample {'female' if case['female'] else 'male'}, {'male' if case['male_ref'] else 'female'} reference, "
            f"sd {case['sd']}, nx {case['nx']}, ny {case['ny']}, autosomes {len(case['autos'])}x{case['per_auto']}, weights {case['weights']}, "
            f"par {case['par']} ({case['par_bins']} bins), seed {case['seed']}")
+    if case["seed"] % 3 == 0:
+        # history: the same array was first asked under the other reference assumption / without one
+        cna.guess_xx(is_haploid_x_reference=not case["male_ref"], diploid_parx_genome=case["par"], verbose=False)
+        cna.expect_flat_log2(None, case["par"])
     is_xx = cna.guess_xx(is_haploid_x_reference=case["male_ref"], diploid_parx_genome=case["par"], verbose=False)
     if is_xx is None or bool(is_xx) != case["female"]:
         bad("sex:guess_xx", f"guess_xx -> {is_xx!r}; {ctx}")
@@ -313,8 +317,19 @@ def check_case(case):
     if not np.allclose(delta[isx], wantd, atol=1e-12, rtol=0) or not np.all(delta[~isx] == 0):
         bad("sex:shift_xx", f"shift_xx moved X by {sorted(set(np.round(delta[isx], 9)))[:3]} (expected {wantd}) and other bins by "
                             f"{sorted(set(np.round(delta[~isx], 9)))[:3]}; {ctx}")
-    if not df.equals(cna.data[df.columns]):
+    if not df.reset_index(drop=True).equals(cna.data[df.columns].reset_index(drop=True)):
         bad("sex:input-modified", "guess_xx/do_sex/shift_xx changed the input table")
+    if case["seed"] % 3 == 1:
+        # container re-use: the same array object now holds the opposite-sex sample of the same cohort
+        other = dict(case, female=not case["female"])
+        df2 = pd.DataFrame(build_sex(other))
+        keep = cna.data["log2"].values.copy()
+        cna["log2"] = df2["log2"].values
+        again = cna.guess_xx(is_haploid_x_reference=case["male_ref"], diploid_parx_genome=case["par"], verbose=False)
+        if again is None or bool(again) == case["female"]:
+            bad("sex:guess_xx-after-update", f"after the array's log2 values were replaced by a {'male' if case['female'] else 'female'} sample "
+                                             f"guess_xx still returns {again!r}; {ctx}")
+        cna["log2"] = keep
     # after the shift X (outside PAR when the sample/reference differ) sits at the autosomal level
     if not case["par"] or not case["par_bins"]:
         xm = float(np.median(sh.data["log2"].values[isx]))
